@@ -1,4 +1,5 @@
 import CfrVerif.Proofs.CompileWF
+import CfrVerif.Proofs.CompileValid
 /-!
 # C11 — game construction accepts exactly the documented class of games
 
@@ -18,56 +19,11 @@ set_option linter.unusedSectionVars false
 namespace Cfr
 variable {α : Type} [Field α] [LinearOrder α] [IsStrictOrderedRing α]
 
-/-! ## the documented contract -/
+/-! ## the documented contract
 
-/-- an own history on labels: `(infoset label, action label)` of the player's earlier
-multi-action decisions, oldest first (single-action nodes are exempt) -/
-abbrev LHist := List (Nat × Nat)
-
-/-- the per-infoset data every node has to agree with -/
-structure Assignment (α : Type) where
-  /-- outcome probabilities of a named chance infoset -/
-  cprob : Nat → List α
-  /-- action list of a player infoset -/
-  acts : Bool → Nat → List Nat
-  /-- own history of a multi-action player infoset -/
-  hist : Bool → Nat → LHist
-
-def normalise (ws : List α) : List α := ws.map (· / ws.sum)
-
-mutual
-/-- node `r`, reached with own label histories `h1` (player one) and `h2` (player two),
-conforms to the assignment and so does everything below it -/
-def Conforms (A : Assignment α) : Raw α → LHist → LHist → Prop
-  | .term _, _, _ => True   -- payoffs are finite: automatic in exact arithmetic
-  | .chance info ws kids, h1, h2 =>
-    ws.length = kids.length ∧ ws ≠ [] ∧ (∀ w ∈ ws, 0 < w) ∧
-    (∀ l, info = some l → A.cprob l = normalise ws) ∧
-    ConformsL A kids h1 h2
-  | .player one info acts kids, h1, h2 =>
-    acts.length = kids.length ∧ acts ≠ [] ∧ A.acts one info = acts ∧ acts.Nodup ∧
-    (2 ≤ acts.length → A.hist one info = (if one then h1 else h2)) ∧
-    ConformsA A one info (2 ≤ acts.length) acts kids h1 h2
-/-- children of a chance node: histories unchanged -/
-def ConformsL (A : Assignment α) : List (Raw α) → LHist → LHist → Prop
-  | [], _, _ => True
-  | k :: ks, h1, h2 => Conforms A k h1 h2 ∧ ConformsL A ks h1 h2
-/-- children of a player node: a multi-action decision is appended to that player's history -/
-def ConformsA (A : Assignment α) (one : Bool) (info : Nat) (multi : Prop) [Decidable multi] :
-    List Nat → List (Raw α) → LHist → LHist → Prop
-  | a :: as, k :: ks, h1, h2 =>
-    Conforms A k (if multi ∧ one then h1 ++ [(info, a)] else h1)
-      (if multi ∧ ¬ one then h2 ++ [(info, a)] else h2) ∧
-    ConformsA A one info multi as ks h1 h2
-  | _, _, _, _ => True
-end
-
-/-- **the documented class of games**: every chance node has at least one outcome and only
-positive weights; chance nodes sharing an infoset have the same outcome probabilities in the
-same order; every decision node has at least one action; nodes sharing a player infoset list the
-same distinct actions in the same order; each player has perfect recall (nodes of a multi-action
-infoset are reached after the same own decisions; single-action nodes exempt) -/
-def Valid (r : Raw α) : Prop := ∃ A : Assignment α, Conforms A r [] []
+The definitions `LHist`, `Assignment`, `normalise`, `Conforms` / `ConformsL` / `ConformsA`,
+`Valid`, `Violates`, `AnyNode` / `AnyNodeL` live in `Proofs/CompileValid.lean` (the helper
+lemmas are about them). -/
 
 /-! ## theorems -/
 
@@ -75,32 +31,13 @@ def Valid (r : Raw α) : Prop := ∃ A : Assignment α, Conforms A r [] []
 (`Raw.Shape`: the crate iterates *pairs* `(weight, child)` / `(action, child)`, the model keeps
 the two components in two lists, which therefore have equal lengths) -/
 theorem fromRoot_ok_iff_valid (r : Raw α) (hs : Raw.Shape r) :
-    (∃ g, fromRoot r = .ok g) ↔ Valid r := by
-  sorry
+    (∃ g, fromRoot r = .ok g) ↔ Valid r :=
+  ⟨fun ⟨g, h⟩ => CompileValid.fromRoot_ok_valid r hs g h, CompileValid.valid_fromRoot_ok r⟩
 
 /-- **everything that is accepted is well formed** (proved in `Proofs/CompileWF.lean`) -/
 theorem fromRoot_ok_wf (r : Raw α) (hs : Raw.Shape r) (g : Game α) (h : fromRoot r = .ok g) :
     GameWF g :=
   compile_ok_wf r hs g h
-
-/-- a rule named by an error, as a property of one node -/
-def Violates : GameError → Raw α → Prop
-  | .emptyChance, .chance _ ws _ => ws = []
-  | .nonPositiveChance, .chance _ ws _ => ∃ w ∈ ws, ¬ 0 < w
-  | .emptyPlayer, .player _ _ acts _ => acts = []
-  | .actionsNotUnique, .player _ _ acts _ => ¬ acts.Nodup
-  | _, _ => False
-
-mutual
-/-- some node of the tree satisfies `P` -/
-def AnyNode (P : Raw α → Prop) : Raw α → Prop
-  | .term p => P (.term p)
-  | .chance i ws ks => P (.chance i ws ks) ∨ AnyNodeL P ks
-  | .player o i as ks => P (.player o i as ks) ∨ AnyNodeL P ks
-def AnyNodeL (P : Raw α → Prop) : List (Raw α) → Prop
-  | [] => False
-  | k :: ks => AnyNode P k ∨ AnyNodeL P ks
-end
 
 /-- **an error names a rule that the tree violates**: the four *local* rules are violated at
 some node; the three *relational* rules (`ProbabilitiesNotEqual`, `ActionsNotEqual`,
@@ -111,7 +48,11 @@ theorem fromRoot_error_sound (r : Raw α) (hs : Raw.Shape r) (e : GameError)
     (e = .emptyChance ∨ e = .nonPositiveChance ∨ e = .emptyPlayer ∨ e = .actionsNotUnique →
       AnyNode (Violates e) r) ∧
     e ≠ .nonFinitePayoff := by
-  sorry
+  obtain ⟨h1, h2⟩ := CompileValid.fromRoot_err r hs e h
+  refine ⟨fun hv => ?_, h2, h1⟩
+  obtain ⟨g, hg⟩ := CompileValid.valid_fromRoot_ok r hv
+  rw [h] at hg
+  cases hg
 
 /-! ## non-vacuity -/
 
